@@ -68,6 +68,29 @@ PROPS['C12'] = {
     'assumptions': ['Hash is modelled as the byte sequence fed to the hasher'],
 }
 
+PROPS['C17'] = {
+    'level': 'proof',
+    'technique': 'Lean 4 theorems on a model of Time::take_from/encode_varied, Validity and the 20-octet Serial bignum loops '
+                 '(round trips, decode soundness, value/ordering laws) + calendar-exhaustive differential check against the real code',
+    'claim': 'Lean 4 proofs: every valid civil second of years 0-9999 encodes (UTCTime iff 1950-2049, widths 13/15) and decodes back '
+             'with both decoders; anything decoded is a real calendar time rendered in exactly the fixed-width all-digit Z form with the '
+             'pivot at 50; verify_at is nb<=t<=na and trim is intersection; Serial::from_slice/from_str/encode_dec/DER content are exact '
+             'in value for all 20-octet serials (decimal and minimal-DER round trips, numeric order). Partial: the map from civil fields '
+             'to chrono instants (calendar validity = ymd_opt/and_hms_opt, ordering of instants) is assumed, and validated by the '
+             'every-day sweep of years 1-9999 on the real code.',
+    'note': 'chrono calendar validity modelled by validCivil; u32::from_str modelled by rustU32; bcder Unsigned head check modelled by '
+            'decodeSerialContent; all three are exercised differentially. Pivot, year window and the digit check are regenerated from '
+            'src/repository/x509.rs on every run. Mathlib is used only for the tactics ring/linarith/norm_num in the serial lemmas.',
+    'shards': {'quick': 4, 'thorough': 16},
+    'budget': {'quick': 600, 'thorough': 7200},
+    'rule': 'enc: every day (first/last days of each month) of 21 boundary years x3 times + 10^4 random; sweep: every day of 4 (thorough: '
+            'all 40) 250-year ranges x3 times of day compared as counts; dec: all single and (bounded) double edits of 6 valid strings over '
+            '{0-9,+,-,space,Z,z,:}, insert/delete, truncations, trailing data, field boundary table; validity: all triples over 12 boundary '
+            'instants + random; serials: 10^k+-1, 2^i+-1, random of every length; slices of length 0..22; decimal strings incl. 2^159 boundaries.',
+    'trusted_base': ['chrono date validity and ordering (assumed = proleptic Gregorian calendar); Mathlib tactics ring/linarith/norm_num (kernel-checked proofs)'],
+    'assumptions': ['instants are compared as integers (chrono timestamps)'],
+}
+
 NOT_APPLICABLE = {
 }
 for _i in range(1, 18):
